@@ -885,7 +885,7 @@ def run_parser_stage(job):
         else:
             raise ValueError('unknown stage ' + stage)
         rec['res'] = {'cases': cases, 'stats': stats,
-                      'bad': [(f, d.hex() if isinstance(d, (bytes, bytearray)) else repr(d), e) for f, d, e in bad]}
+                      'bad': [(f, d.hex() if isinstance(d, (bytes, bytearray)) else str(d), e) for f, d, e in bad]}
     except Hang as e:
         rec['hang'] = str(e)[-1800:]
         rec['item'] = P.PROGRESS.get('item')
